@@ -46,6 +46,8 @@ def register(R):
                            ("C14", "not (%s)" % ACC),
                        ]}},
                    ensures=memo + [
+                       # C15: the validated array never shares memory with the caller's object
+                       ("C15", "fresh(result)"),
                        "result.shape[0] == %s(X)" % ROWS,
                        "result.shape[1] == %s(X)" % W,
                        ("C14", "forall(j, 0, %s(X), result[0][j] == %s)" % (
